@@ -616,7 +616,10 @@ impl KeyPackageStorage for SimKpStore {
 
 #[derive(Clone, Default)]
 pub struct SimPskStore {
+    /// what the application registered (the model's view: id -> value)
     pub map: Arc<Mutex<BTreeMap<Vec<u8>, Vec<u8>>>>,
+    /// the store the library reads: the in-memory PSK storage that ships with mls-rs (real code)
+    pub real: mls_rs::storage_provider::in_memory::InMemoryPreSharedKeyStorage,
     pub faults: Faults,
 }
 
@@ -624,23 +627,36 @@ impl SimPskStore {
     pub fn new(faults: Faults) -> Self {
         SimPskStore {
             map: Default::default(),
+            real: Default::default(),
             faults,
         }
     }
     pub fn put(&self, id: &[u8], value: &[u8]) {
         self.map.lock().unwrap().insert(id.to_vec(), value.to_vec());
+        self.real.clone().insert(ExternalPskId::new(id.to_vec()), PreSharedKey::new(value.to_vec()));
     }
     pub fn remove(&self, id: &[u8]) {
         self.map.lock().unwrap().remove(id);
+        self.real.clone().delete(&ExternalPskId::new(id.to_vec()));
     }
     pub fn peek(&self, id: &[u8]) -> Option<Vec<u8>> {
         self.map.lock().unwrap().get(id).cloned()
     }
-    pub fn fork(&self, faults: Faults) -> Self {
-        SimPskStore {
-            map: Arc::new(Mutex::new(self.map.lock().unwrap().clone())),
-            faults,
+    /// what the store hands to the library for this id (no fault gate)
+    pub fn stored(&self, id: &[u8]) -> Option<Vec<u8>> {
+        self.real.get(&ExternalPskId::new(id.to_vec())).map(|p| p.raw_value().to_vec())
+    }
+    /// everything another store holds is registered here as well (a new device of the same user)
+    pub fn copy_from(&self, other: &SimPskStore) {
+        let all: Vec<(Vec<u8>, Vec<u8>)> = other.map.lock().unwrap().iter().map(|(k, v)| (k.clone(), v.clone())).collect();
+        for (k, v) in all {
+            self.put(&k, &v);
         }
+    }
+    pub fn fork(&self, faults: Faults) -> Self {
+        let out = SimPskStore::new(faults);
+        out.copy_from(self);
+        out
     }
 }
 
@@ -648,12 +664,7 @@ impl PreSharedKeyStorage for SimPskStore {
     type Error = SimError;
     fn get(&self, id: &ExternalPskId) -> Result<Option<PreSharedKey>, Self::Error> {
         gate(&self.faults, "psk.get")?;
-        Ok(self
-            .map
-            .lock()
-            .unwrap()
-            .get(id.as_ref())
-            .map(|v| PreSharedKey::new(v.clone())))
+        Ok(self.real.get(id))
     }
 }
 
